@@ -95,6 +95,8 @@ def main():
                               "pinned test suite with and without the diff, failing ids compared (known-flaky hypothesis tests ignored); import check")
     else:
         checks = sys.argv[4:] or [pid]
+        if step == "redetect" and "detection" in meta and "detection_round1" not in meta:
+            meta["detection_round1"] = meta.pop("detection")         # first-run result kept (checks as they were before strengthening)
         meta.setdefault("detection", {}).update(detect(pid, k, checks))
     json.dump(meta, open(mp, "w"), indent=1)
     print(pid, k, step, json.dumps({k2: v for k2, v in meta.items() if k2 in ("confirmed", "detection", "new_failing_tests", "demo_clean_rc", "demo_mutant_rc")})[:400])
